@@ -234,7 +234,10 @@ def gen_cases(rng, tier):
             perms = list(itertools.permutations(range(n)))
             if n == 4:
                 perms = rng.sample(perms, 8)
-            ws = [[(who, who == h) for who in p] for h in range(n) for p in perms]
+            if big or n == 2:
+                ws = [[(who, who == h) for who in p] for h in range(n) for p in perms]
+            else:   # every permutation once, every holder twice
+                ws = [[(who, who == (i % n)) for who in p] for i, p in enumerate(perms)]
             cs.append(make_case('agree', k, max(1, n - 1), n, True, ws, 2, '0', [], seeds, cpath=rng.randrange(n)))
     # 2. ceremonies: all m-of-n, three kinds, random supply orders, chains
     for k in 'LPS':
@@ -244,31 +247,34 @@ def gen_cases(rng, tier):
             chains = all_chains(n)
             if not big:
                 fixed = [c for c in chains if c.count('r') == 0][:2]
-                chains = fixed + rng.sample(chains, min(len(chains), 10 if n == 3 else 6))
-            chains = chains + special_chains(n, rng)
+                chains = fixed + rng.sample(chains, min(len(chains), 5 if n == 3 else 4))
+            sp = special_chains(n, rng)
+            chains = chains + (sp if big else rng.sample(sp, 4))
             cs.append(make_case('ceremony', k, m, n, True, holder_wallets(n, perms), 1, '0', chains, seeds,
                                 cpath=rng.randrange(n)))
     # 3. two inputs (same address / two addresses): object and dict chains
-    for k in 'LPS':
+    for ki, k in enumerate('LPS'):
         for (m, n) in ([(2, 3), (2, 2), (3, 3), (1, 3)] if big else [(2, 3)]):
-            for inputs in ('00', '01'):
+            for inputs in (('00', '01') if big else (('01', '00', '01')[ki],)):
                 seeds = [seed_of(rng) for _ in range(n)]
                 perms = [rng.sample(range(n), n) for _ in range(n)]
                 chains = all_chains(n, 'od', with_send=False)
                 if not big:
-                    chains = rng.sample(chains, 8)
+                    chains = rng.sample(chains, 4)
                 chains = [c + '.p' for c in chains]
                 cs.append(make_case('two_inputs', k, m, n, True, holder_wallets(n, perms), 2, inputs, chains, seeds))
     # 4. sort_keys off: same supply order everywhere (chains), different orders (observation only)
-    for k in 'LPS':
+    for ki, k in enumerate('LPS'):
         n, m = 3, 2
-        seeds = [seed_of(rng) for _ in range(n)]
-        p = rng.sample(range(n), n)
-        cs.append(make_case('unsorted_same', k, m, n, False, holder_wallets(n, [p] * n), 1, '0',
-                            rng.sample(all_chains(n, 'od'), 4), seeds))
-        seeds = [seed_of(rng) for _ in range(n)]
-        cs.append(make_case('unsorted_diff', k, m, n, False, holder_wallets(n, [[0, 1, 2], [2, 0, 1], [1, 0, 2]]), 1, '0',
-                            [], seeds))
+        if big or ki != 1:
+            seeds = [seed_of(rng) for _ in range(n)]
+            p = rng.sample(range(n), n)
+            cs.append(make_case('unsorted_same', k, m, n, False, holder_wallets(n, [p] * n), 1, '0',
+                                rng.sample(all_chains(n, 'od'), 4 if big else 2), seeds))
+        if big or ki == 1:
+            seeds = [seed_of(rng) for _ in range(n)]
+            cs.append(make_case('unsorted_diff', k, m, n, False, holder_wallets(n, [[0, 1, 2], [2, 0, 1], [1, 0, 2]]), 1,
+                                '0', [], seeds))
     # 5. watch-only wallets (cosigner_id given), agreement only
     for k in 'LPS':
         n = 3
@@ -322,7 +328,7 @@ def same(c, io, mo):
         if ri is None or rm is None or len(ri) != len(rm):
             return False
         for (red_i, addr_i, own_i, path_i), (red_m, hash_m, own_m, path_m) in zip(ri, rm):
-            if red_i != red_m or own_i != own_m or path_i != path_m:
+            if red_i != red_m or own_i != own_m or not ('/' + path_m).endswith('/' + path_i):
                 return False
             if hash_m in ('ERR', '-') or addr_i != address_of_hash(k, bytes.fromhex(hash_m)):
                 return False
@@ -419,7 +425,9 @@ def prop_check(c, io):
                 if addr != spec_address(m['k'], sc):
                     return 'address %s is not the %s address of the redeem script' % (addr, KINDS[m['k']])
             paths = set(r[j][3] for r in ap)
-            if paths != {path_text(m['k'], m['cpath'], j)}:
+            want = '/' + path_text(m['k'], m['cpath'], j)
+            # a wallet that holds only account-level public keys reports the path relative to them
+            if len(paths) != 1 or not all(want.endswith('/' + p_) for p_ in paths):
                 return 'key path differs between cosigner wallets or from the documented structure: %s' % sorted(paths)
     # (b) valid and pushed exactly when at least m distinct cosigners have signed
     f = chain_failures(c, io)
